@@ -103,7 +103,11 @@ func Variants(samIn, refIn io.Reader, refFromFile bool, annoIn io.Reader, annoSu
 
 	go groupSamRecords(samIn, cSH, cSR, cReadDone, cErr)
 
-	_ = <-cSH
+	select {
+	case <-cSH:
+	case err := <-cErr:
+		return err
+	}
 
 	var wgAlign sync.WaitGroup
 	wgAlign.Add(threads)
